@@ -240,6 +240,10 @@ type taskState struct {
 	cancel context.CancelFunc
 	fired  bool
 	sim    *simrt.Sim
+	// returned: Translate has handed its result back to this task; late: the kind mapper was (still) being used
+	// on behalf of this call after that
+	returned bool
+	late     bool
 }
 
 func kindID(k graph.Kind) int16 {
@@ -255,10 +259,16 @@ func (mapper) hook(ctx context.Context) error {
 		return nil
 	}
 	ts.calls++
+	if ts.returned {
+		ts.late = true
+	}
 	switch ts.fault {
 	case "deadline":
 		// every lookup takes 10ms of simulated time; the deadline sits in the middle of the k-th one
 		simrt.Sleep(10 * time.Millisecond)
+		if ts.returned {
+			ts.late = true
+		}
 		if err := ctx.Err(); err != nil {
 			if !ts.fired {
 				ts.fired = true
@@ -622,6 +632,7 @@ func exec(t *testing.T, w WL, cfg simrt.Config) simh.Outcome {
 			ctx = context.WithValue(ctx, taskKey{}, ts)
 			s.Spawn(func() {
 				got[i] = translateOnce(ctx, inputs[i].q, inputs[i].params)
+				ts.returned = true
 				cancel()
 			})
 		}
@@ -635,6 +646,10 @@ func exec(t *testing.T, w WL, cfg simrt.Config) simh.Outcome {
 			continue
 		}
 		fired := states[i].fired
+		if states[i].late {
+			o.Class, o.Detail = "oracle:mapper_used_after_return", fmt.Sprintf("task %d: the shared kind mapper was still being called on behalf of the translation of %q after Translate had returned to its caller", i, corpus[tk.Q].text)
+			return o
+		}
 		if got[i].Panic != "" {
 			o.Class, o.Detail = "panic", fmt.Sprintf("task %d translating %q: %s", i, corpus[tk.Q].text, got[i].Panic)
 			return o
